@@ -193,9 +193,10 @@ pub async fn writer(sh: Rc<Shared>, mut w: OwnedWriteHalf, dir: Dir, me: usize) 
                         let free = cap.saturating_sub(sq);
                         let expect = want.min(free);
                         if k != expect {
+                            let exp = if expect == 0 { "WouldBlock".to_string() } else { format!("Ok({expect})") };
                             sh.complain(
                                 "partial-write",
-                                format!("{who} try_write({want}) with send_q={sq} cap={cap} returned Ok({k}), expected Ok({expect})"),
+                                format!("{who} try_write({want}) with send_q={sq} cap={cap} returned Ok({k}), expected {exp}"),
                             );
                         }
                     }
